@@ -145,6 +145,34 @@ def gen_mcase(rng, kinds=('set', 'cascade', 'pop', 'match'), nops=None, run_impl
     nheld = 0
     for _ in range(nops):
         kind = rng.choice(kinds)
+        if 'cascade' in kinds and rng.random() < 0.08:
+            # create through a stored path, remove the branch, create again through the same path object
+            p = gen_target(rng, shadow, cascade_bias=True)
+            if len(p) >= 2 and all(s[0] in ('key', 'idx') for s in p):
+                cut = rng.randint(1, len(p) - 1)
+                trio = [('set', p, gen_value(rng), True, False), ('pop', p[:cut], (None,)),
+                        ('set', p, gen_value(rng), True, False)]
+                for op in trio:
+                    ops.append(op)
+                    if run_impl is not None:
+                        shadow = run_impl(shadow, op)
+                continue
+        if ops and rng.random() < 0.12:
+            # the same stored path again (create / pop / create again, assign twice, ...)
+            prev = rng.choice([o for o in ops if o[0] in ('set', 'getstore', 'pop', 'pop_match')] or [None])
+            if prev is not None:
+                p = prev[1]
+                r = rng.random()
+                if r < 0.5 and 'cascade' in kinds or r < 0.3:
+                    op = ('set', p, gen_value(rng), 'cascade' in kinds or rng.random() < 0.5, False)
+                elif r < 0.8:
+                    op = ('pop', p[:rng.randint(1, len(p))] if p else p, None if rng.random() < 0.6 else (gen_value(rng),))
+                else:
+                    op = ('set', p, gen_value(rng), False, False)
+                ops.append(op)
+                if run_impl is not None:
+                    shadow = run_impl(shadow, op)
+                continue
         if kind == 'set':
             p = gen_target(rng, shadow)
             r = rng.random()
